@@ -1009,6 +1009,23 @@ def oracle_cross_set(case, rec):
             rec.check(c == int(C0.sum()),
                       tag + "_overflow_falls_back_to_initial_number",
                       "initial %d, got %d" % (C0.sum(), c))
+        if mode in ("null", "overflow"):
+            # a chain of null models: the generator applied to its own
+            # output (whatever internal representation that has) keeps the
+            # number of cross links as well
+            pbt.seed_library_rngs(sb, sa)
+            ok2, out2 = call_bounded(
+                rec, tag + "_call_second_generation" + suf,
+                50 * M * (2 + int(np.log(M))) + 1000, fn, out, a1, a2, **kw)
+            if ok2:
+                B2 = check_object(rec, out2, tag + "_second_generation", n,
+                                  directed)
+                if B2 is not None:
+                    c2 = int(B2[np.ix_(l1, l2)].sum())
+                    rec.check(c2 == int(C0.sum()), tag + "_second_generation"
+                              "_keeps_number_of_cross_links",
+                              "initial %d, first %d, second %d" % (
+                                  C0.sum(), c, c2))
         if not np.array_equal(B, A0):
             changed = True
     rec.label("changed" if changed else "unchanged")
